@@ -217,6 +217,50 @@ func (c *Ctx) obMustUnder(what string, f *ssa.Function, labels []string, H ...st
 	_, s := c.Std()
 	m, exits := s.MustUnder(f, c.F.SkipUnder(H...))
 	ok := hasAny(m, labels...) && exits > 0
+	if !ok && exits > 0 {
+		// the effect may sit in a helper that tests the same condition itself: a call that lies on every feasible
+		// path, to an unexported helper that certainly produces the label under H, counts — provided H only speaks
+		// about fields that f has not written before the call
+		onlyFields := true
+		for _, h := range H {
+			if strings.Contains(h, "param") || strings.Contains(h, "local:") || strings.Contains(h, "alloc:") || strings.Contains(h, "next#") {
+				onlyFields = false
+			}
+		}
+		if onlyFields {
+			allInstrs(f, func(in ssa.Instruction) {
+				if ok {
+					return
+				}
+				cc := callCommon(in)
+				if cc == nil {
+					return
+				}
+				if _, isDefer := in.(*ssa.Defer); isDefer {
+					return
+				}
+				g := staticCallee(cc)
+				if g == nil || !inSmtp(g) || isExported(g) || g == f || g.Blocks == nil {
+					return
+				}
+				if !m["call:"+qualFuncName(g)] {
+					return
+				}
+				gm, gex := s.MustUnder(g, c.F.SkipUnder(H...))
+				if gex == 0 || !hasAny(gm, labels...) {
+					return
+				}
+				var flds []*types.Var
+				for _, h := range H {
+					flds = append(flds, c.F.mentionsOf(canonAtom(h))...)
+					flds = append(flds, c.F.mentionsOf(h)...)
+				}
+				if !c.writtenBefore(in, flds) {
+					ok = true
+				}
+			})
+		}
+	}
 	d := ""
 	if !ok {
 		d = fmt.Sprintf("under {%s} some path through %s returns without any of %v (feasible exits: %d; events on all such paths: %v)", strings.Join(H, " && "), funcName(f), labels, exits, m.list())
@@ -393,14 +437,26 @@ func (c *Ctx) obFollowH(what string, f *ssa.Function, trig func(ssa.Instruction)
 	})
 	for _, t := range trigs {
 		t := t
-		v := RunPend(f, PendRule{
-			Trig:     func(in ssa.Instruction) bool { return in == t },
-			Disch:    c.mustDo(disch...),
-			DeferD:   c.deferMustDo(disch...),
-			SkipEdge: c.F.SkipUnder(H...),
-			PhiOK:    c.F.PhiFeasible(H...),
-			AtExit:   true,
-		})
+		var v []PathViolation
+		// a trigger that is the call of a helper which itself, under H, certainly performs the required event
+		helperDoes := false
+		if cc := callCommon(t); cc != nil {
+			if g := staticCallee(cc); g != nil && inSmtp(g) && !isExported(g) && g.Blocks != nil {
+				_, sm := c.Std()
+				gm, gex := sm.MustUnder(g, c.F.SkipUnder(H...))
+				helperDoes = gex > 0 && hasAny(gm, disch...)
+			}
+		}
+		if !helperDoes {
+			v = RunPend(f, PendRule{
+				Trig:     func(in ssa.Instruction) bool { return in == t },
+				Disch:    c.mustDo(disch...),
+				DeferD:   c.deferMustDo(disch...),
+				SkipEdge: c.F.SkipUnder(H...),
+				PhiOK:    c.F.PhiFeasible(H...),
+				AtExit:   true,
+			})
+		}
 		d := ""
 		if len(v) > 0 {
 			d = fmt.Sprintf("under {%s} the path from %s to the return at %s does not pass any of %v", strings.Join(H, " && "), c.P.InstrPos(t), c.P.InstrPos(v[0].At), disch)
